@@ -28,7 +28,7 @@ RULE = ('value alphabet: null; integers {0,1,-1,2^63-1,2^63,-2^63,-2^63-1,2^255,
         'reference-written alternative encodings parse to the same values. History search: events ser_stack / ser_value / ser_tuple / deserialize / '
         'tuple.append / tuple.pop / in-place edit of tuple.list on a shared pool, depth 3 (4 thorough). non-trivial = stack with a tuple, slice or continuation; states = distinct stacks / canonical pools; '
         'transitions = library calls; traces = reference decodes and logical comparisons')
-RULE += ' Fifth session: parsed stacks (own and foreign encodings, continuations excepted) are serialised again, twice, and decoded per schema; stacks of 254..1022 values and tuples of up to 255 entries under the default recursion limit.'
+RULE += ' Fifth session: parsed stacks (own and foreign encodings; since the sixth session continuations too) are serialised again, twice, and decoded per schema; stacks of 254..1022 values and tuples of up to 255 entries under the default recursion limit.'
 LEVEL_TEXT = ('Bounded-exhaustive: all short stacks over a value alphabet that contains every constructor of VmStackValue, every VmTuple/VmTupleRef shape and '
               'every VmCont kind are serialised by the real code and read back both by an independent interpreter of the TL-B schema and by the library; '
               'an explicit-state search over use histories checks that serialising never consumes or aliases caller-held values.')
@@ -672,10 +672,9 @@ def parse_and_compare(rec, cell, want, key, what, fn, args):
     if sl.remaining_bits or sl.remaining_refs:
         rec.violation(f'{key}:left', f'{what}: parser left {sl.remaining_bits} bits / {sl.remaining_refs} refs unread', fn, args)
         return False
-    # the parsed values are stack values too: they serialise (the caller need not rebuild them) to the same logical stack, twice.
-    # Continuations are left out: the parser returns their control data in another Python representation than the serialiser
-    # takes (DESIGN.md Section 7a, finding 22 - compared by content above, re-serialisation not asserted)
-    if 'cont' not in repr(want):
+    # the parsed values are stack values too: they serialise (the caller need not rebuild them) to the same logical stack, twice -
+    # continuations with control data included (sixth session: the serialiser takes what the parser hands out, fix recorded)
+    if True:
         try:
             rec.trans(2)
             r1 = VmStack.serialize(back)
